@@ -201,3 +201,16 @@ Definition chk_metahist : P (list Z) :=
 Definition chk_bsi : P (list Z) :=
   op <- pz ;; v <- pz ;; a <- pz ;; b <- pz ;; r <- pbool ;;
   ret (verdict (Bool.eqb (bsi_cmp (bop_of_Z op) v a b) r) false [if bsi_cmp (bop_of_Z op) v a b then 1 else 0]).
+
+(** 402: the filter constructors (incl. the aliases Between / IsNull / IsNotNull / AnyOf / NoneOf) build
+    the documented filter: constructor number, operator of the filter it produced, and whether the field
+    and the operand(s) are the ones it was given.  Constructor numbers 0..10 are the operators
+    themselves (Eq Ne Gt Gte Lt Lte In NotIn Range Exists NotExists), 11 Between = Range,
+    12 IsNull = NotExists, 13 IsNotNull = Exists, 14 AnyOf = In, 15 NoneOf = NotIn. *)
+Definition ctor_op (c : Z) : Z :=
+  if c <=? 10 then c else if c =? 11 then 8 else if c =? 12 then 10 else if c =? 13 then 9
+  else if c =? 14 then 6 else if c =? 15 then 7 else -1.
+Definition chk_ctor : P (list Z) :=
+  c <- pz ;; op <- pz ;; fieldok <- pbool ;; v1ok <- pbool ;; v2ok <- pbool ;;
+  let ok := (0 <=? c) && (c <=? 15) && (op =? ctor_op c) && fieldok && v1ok && v2ok in
+  ret (verdict ok ok [c; op]).
